@@ -1,6 +1,10 @@
 package main
 
-import "gopkg.in/typ.v4/slices"
+import (
+	"math"
+
+	"gopkg.in/typ.v4/slices"
+)
 
 // C13: Chunk / Windowed / Pairs and their Func variants.
 func init() { comps["partition"] = drivePartition }
@@ -16,6 +20,13 @@ func cp2(xs [][]int) [][]int {
 func drivePartition(plan []M, out *Out, _ []string) {
 	for _, c := range plan {
 		op, n, size := str(c, "op"), num(c, "n"), num(c, "size")
+		// sizes near the top of the int range (plan: "huge": 0 = MaxInt, 1 = MaxInt-1, 2 = MaxInt/2+1).  TLC integers are 32-bit, so
+		// the trace writes such a size as 2^30: for the inputs used (n <= 300) every clause is the same function of any size > n
+		real := size
+		if h, ok := c["huge"]; ok {
+			real = []int{math.MaxInt, math.MaxInt - 1, math.MaxInt/2 + 1}[int(h.(float64))%3]
+			size = 1 << 30
+		}
 		input := ints(c, "input")
 		if _, ok := c["input"]; !ok {
 			input = make([]int, n)
@@ -29,11 +40,11 @@ func drivePartition(plan []M, out *Out, _ []string) {
 		e["panic"] = protect(func() {
 			switch op {
 			case "Chunk":
-				res = cp2(slices.Chunk(work, size))
-				slices.ChunkFunc(work, size, func(p []int) { cb = append(cb, append([]int{}, p...)) })
+				res = cp2(slices.Chunk(work, real))
+				slices.ChunkFunc(work, real, func(p []int) { cb = append(cb, append([]int{}, p...)) })
 			case "Windowed":
-				res = cp2(slices.Windowed(work, size))
-				slices.WindowedFunc(work, size, func(p []int) { cb = append(cb, append([]int{}, p...)) })
+				res = cp2(slices.Windowed(work, real))
+				slices.WindowedFunc(work, real, func(p []int) { cb = append(cb, append([]int{}, p...)) })
 			case "Pairs":
 				for _, p := range slices.Pairs(work) {
 					res = append(res, []int{p[0], p[1]})
